@@ -164,8 +164,14 @@ def scenario(ch, cfg):
     if warm:
         wa = w.spawn("warm", warmup)
         w.run(until=lambda: wa.done)
-        if wa.exc is not None:
-            raise HarnessError(f"warm-up failed: {wa.exc!r}")
+        if wa.exc is not None or not wa.done:
+            what = "blocked forever" if not wa.done else f"raised {type(wa.exc).__name__}"
+            out = {"violations": [{"sig": f"C18:warmup-get:{'hang' if not wa.done else type(wa.exc).__name__}",
+                                   "msg": f"uncontended get_file of an existing file {what}"}],
+                   "stats": dict(stats), "digest": w.digest(), "sched": w.sched_digest(), "steps": w.steps,
+                   "sample": {"warm": warm}, "tail": list(w.tail)}
+            w.shutdown()
+            return out
 
     def probe_before(op):
         info = cache.file_futures.get(op["file"])
